@@ -13,6 +13,48 @@ REALS_AXIOMS = [
 ]
 
 PROPS = {
+    "C10": dict(
+        prop_file="Properties/C10.v",
+        check_module="C10Check",
+        theorems={
+            "C10_decode_encode": [],
+            "C10_wf_check_sound": [],
+            "C10_wf_check_gen_sound": [],
+            "C10_trace_complete_check_sound": [],
+            "C10_span_table_vs_vm": [],
+            "C10_compile_wellformed_partial": [],
+            "C10_compile_wellformed_partial_strong": [],
+            "C10_A23_legacy_window_refuted": [],
+            "C10_A24_repaired": [],
+        },
+        n_quick=320, n_thorough=4000,
+        gates=["obs.ok", "obs.panic", "obs.err.EInvalidJump", "obs.err.EDuplicateName", "obs.err.EEmptyVariable",
+               "obs.err.ERecursionLimitReached", "card.closure.nested", "card.foreach", "card.repeat", "card.while",
+               "card.array", "import.super", "import.module", "import.std", "main.not_first", "module.submodules",
+               "str.len>252", "str.unicode", "disasm.compared", "globals.17+", "corpus.a23", "corpus.a24", "corpus.huge_upvalues",
+               "corpus.globals17", "obs.err.ETooManyLocals", "obs.err.EBadImport", "obs.err.EAmbigousImport", "obs.err.ENoMain",
+               "obs.err.EDuplicateModule", "obs.err.EBadFunctionName", "obs.err.ESuperLimitReached"],
+        rule="random modules (all 43 card kinds, nesting depth <= 4 (6), 0-4 functions per module, submodule trees of "
+             "depth <= 3 with function / module / std / super imports, closures with upvalues, globals and locals, "
+             "string literals up to 1000 bytes, planted faults: bad names, bad imports, empty variables, missing main, "
+             "duplicate names, too many `super.`, > 255 locals, > 255 upvalues) compiled by the crate inside catch_unwind "
+             "with recursion limits 0..4 and 64; the model's compile must return the same bytecode, data, sorted labels, "
+             "variables (ids, names) and sorted trace, or the same error variant + fields + location, or Panic; wf_check "
+             "(proved sound) is run on the crate's output; non-trivial = module with >= 3 cards; distinct = distinct case term",
+        trusted_base=COMMON_TB + [
+            "modelled, not verified: compiler.rs, compiler/module.rs (into_ir_stream .. is_name_valid), function_ir.rs, "
+            "instruction.rs, bytecode.rs, compiled_program.rs; stdlib.rs enters as the generated term StdlibGen.std_module "
+            "(printed by the harness from cao_lang::stdlib::standard_library() on every run); the instruction table "
+            "CompilerGen.gen_span_table is parsed from instruction.rs on every run and compared with Bytecode.span_table",
+            "operand widths of the decoder are the VM's decode_value::<T> calls, transcribed by hand (vm.rs, vm/instr_execution.rs)",
+            "labels / variables / trace are compared as key-sorted association lists; slot order of the hash tables is not modelled"],
+        assumptions=[
+            "function names are ASCII (is_name_valid uses the Unicode-aware char::is_alphanumeric); other cases are reported as code 3",
+            "programs with more than 16 distinct globals are generated unless VERIF_C10_MANY_GLOBALS=0 (before the fix of "
+            "HandleTable::entry, A-5, the 17th global made compile hang; a hang is observed through the harness watchdog, exit code 42)",
+            "bytecode shorter than 2^31 bytes, fewer than 2^32 cards per function",
+        ],
+    ),
     "C14": dict(
         prop_file="Properties/C14.v",
         check_module="C14Check",
